@@ -28,13 +28,17 @@ vlib.standard_check({
             "stimulus is taken before post-processing, after every pass (GATERY_VERIF hook) and at the end; non-trivial = designs + pass boundaries at which "
             "the printed trace changed; backbone: the netlist (cone of the output pins, registers cut) of the design as constructed and of the "
             "post-processed design is dumped with the simulator's value of every node at every cycle, and every node value is recomputed by the driver "
-            "with Gatery.Nodes.evalNode from the values of its inputs (node_values_rechecked_with_lean_semantics)",
+            "with Gatery.Nodes.evalNode from the values of its inputs (node_values_rechecked_with_lean_semantics); every register value at a sample point is "
+            "recomputed with Gatery.Nodes.regEdge from the data/enable/reset-value and register values at the previous sample point "
+            "(register_transitions_rechecked_with_lean_semantics; the transition during which the reset is released is skipped)",
     "trusted_base": ["Lean 4.33 kernel", "axioms: propext, Classical.choice, Quot.sound only (audited per theorem)",
                      "harness/c01.cpp + designgen.h + Driver/C01.lean", "gatery's ReferenceSimulator as the semantics of both circuits (its own correctness is C03/C04/C08)"],
     "level_text": "Lean theorems: congruence (one locally sound node replacement preserves F on every node value of any netlist; any number of "
-                  "replacements preserves identity on defined runs and compatibility), value-level soundness of the rewrites of six optimisation passes "
-                  "for all four-state values; F is evaluated on implementation pin traces of generated designs at every pass boundary and at the end.",
-    "extra_cov": lambda t: {"netlists_rechecked": t.get("netlists_rechecked", 0), "node_values_rechecked_with_lean_semantics": t.get("node_values_rechecked_with_lean_semantics", 0)},
+                  "replacements preserves identity on defined runs and compatibility), lifted to clocked netlists for stimuli of any length (induction over cycles), "
+                  "value-level soundness of the rewrites of seven optimisation passes for all four-state values; F is evaluated on implementation pin traces of generated designs at every pass boundary and at the end.",
+    "extra_cov": lambda t: {"netlists_rechecked": t.get("netlists_rechecked", 0), "node_values_rechecked_with_lean_semantics": t.get("node_values_rechecked_with_lean_semantics", 0),
+                            "register_transitions_rechecked_with_lean_semantics": t.get("register_transitions_rechecked_with_lean_semantics", 0),
+                            "register_transitions_with_enable": t.get("register_transitions_with_enable", 0)},
     "assumptions": ["'run free of undefined values' = stimulus and every node output of the unprocessed circuit defined at every sample point",
                     "a design on which post-processing throws is counted (postprocess_threw), not judged"],
 })
